@@ -92,6 +92,7 @@ def verify(contract, scratch, tucache):
         ex.calls = contract.calls
         ex.default_tags = set(contract.tags)
         ex.fn_returns_ref = contract.returns_ref
+        ex.uf_mul = getattr(contract, 'uf_mul', False)
         st = State()
         args = {}
         for i, p in enumerate(params(fn)):
